@@ -28,7 +28,25 @@ NOTES = {
 BASELINE = 'cd /repo && /venv/bin/python -m pytest -ra -q -p no:cacheprovider --timeout=900 --continue-on-collection-errors'
 
 
+def translated_by_property() -> dict:
+    """property id -> names of the emsarray functions whose model is regenerated from the source on every run
+    (harness/modelmap.py: TRANSLATED; the property is read off the theorem that ties the generated term to the hand model)"""
+    import re
+    from harness import modelmap
+    out: dict = {}
+    for _f, qual, _mod, _gens, thms in modelmap.TRANSLATED:
+        for t in thms:
+            m = re.match(r'Ems\.(C\d\d)', t)
+            if m and qual not in out.setdefault(m.group(1), []):
+                out[m.group(1)].append(qual)
+    # the statement-order translators of harness/tables.py (fifth phase)
+    out.setdefault('C16', []).extend(['Convention.hash_geometry', 'make_cache_key', 'hash_string', 'hash_attributes', 'hash_int'])
+    out.setdefault('C20', []).extend(['clip / extract-points / export-geometry Command.handle', 'Command.guess_format'])
+    return out
+
+
 def main() -> None:
+    tr = translated_by_property()
     props = [json.loads(l) for l in (VERIF / 'properties.jsonl').read_text().splitlines() if l.strip()]
     checks, na = [], []
     for p in props:
@@ -49,12 +67,21 @@ def main() -> None:
             'level_claimed': {
                 'category': 'proof',
                 'text': getattr(mod, 'LEVEL_TEXT', (
-                    'Lean 4 theorems about a hand-written model of the code, for every input the property quantifies over; '
-                    'the model is tied to /repo on every run by a correspondence run through the public API and by tables regenerated from live objects.')),
+                    'Lean 4 theorems about a formal model of the code, for every input the property quantifies over; '
+                    'the model is tied to /repo on every run in two checked ways: '
+                    + (('(T) the model of ' + ', '.join(tr[pid]) + ' is REGENERATED FROM THE SOURCE TEXT by a translator and proved, for all inputs, '
+                        'to compute the hand-written model functions the property theorems are about; ') if tr.get(pid) else
+                       '(T) tables and constants are regenerated from the live objects; ')
+                    + '(C) a correspondence run compares the model\'s executable definitions with the implementation through the public API '
+                      'on generated inputs and histories, and a direct property oracle searches for a failing input.')),
                 'design_ref': f'DESIGN.md section 6, {pid}',
             },
             'level_note': getattr(mod, 'LEVEL_NOTE', NOTES.get(pid, '') + ' Trusted: Lean kernel (axioms propext, Quot.sound, Classical.choice), the hand-written model, the harness (generators, canonicalisers, driver parser), numpy/xarray/shapely behaviour taken as parameters.'),
-            'technique': getattr(mod, 'TECHNIQUE', 'Lean 4 proof over a hand-written model + differential correspondence with the implementation'),
+            'technique': getattr(mod, 'TECHNIQUE', (
+                'Lean 4 machine-checked proof (kernel-accepted theorems, axioms propext / Quot.sound / Classical.choice only) over a model '
+                + ('partly regenerated from the source text on every run (translator) and partly hand-written'
+                   if tr.get(pid) else 'written by hand')
+                + ', tied to the implementation by a differential correspondence check')),
         })
     manifest = {
         'version': 1,
@@ -70,7 +97,7 @@ def main() -> None:
             'name': 'lean4-model+correspondence',
             'path': 'lean/ (lake library EmsModel, Drivers/*.lean) + harness/ (check.py, props/*.py)',
             'serves_properties': [c['property_id'] for c in checks],
-            'kind_free_text': 'Lean 4.33 theorems over hand-written executable models; correspondence = differential run of model driver vs emsarray through the public API; tables regenerated from live objects',
+            'kind_free_text': 'Lean 4.33 theorems over executable models (hand-written, and for the functions listed in harness/modelmap.py: TRANSLATED regenerated from the source text on every run); correspondence = differential run of model driver vs emsarray through the public API; tables regenerated from live objects',
         }],
         'checks': checks,
         'not_applicable': na,
